@@ -6,6 +6,7 @@ import (
 	"go/token"
 	"go/types"
 	"math"
+	"runtime"
 	"strings"
 
 	"golang.org/x/tools/go/ssa"
@@ -65,10 +66,10 @@ type Exec struct {
 	job    *Job
 
 	pc        []*Term
-	prefix    []bool
+	prefix    []int64
 	pos       int
-	decisions []bool
-	scheduled [][]bool
+	decisions []int64
+	scheduled [][]int64
 
 	globals map[*ssa.Global]*Object
 	inited  map[*ssa.Package]bool
@@ -134,9 +135,9 @@ func (e *Exec) branch(cond *Term) bool {
 	}
 	nc := e.tc.BNot(cond)
 	if e.pos < len(e.prefix) {
-		d := e.prefix[e.pos]
+		d := e.prefix[e.pos] != 0
 		e.pos++
-		e.decisions = append(e.decisions, d)
+		e.decisions = append(e.decisions, b2i(d))
 		if d {
 			e.assume(cond)
 		} else {
@@ -201,19 +202,19 @@ func (e *Exec) branch(cond *Term) bool {
 	}
 	switch {
 	case f1 && f0:
-		alt := make([]bool, len(e.decisions)+1)
+		alt := make([]int64, len(e.decisions)+1)
 		copy(alt, e.decisions)
-		alt[len(e.decisions)] = false
+		alt[len(e.decisions)] = 0
 		e.scheduled = append(e.scheduled, alt)
-		e.decisions = append(e.decisions, true)
+		e.decisions = append(e.decisions, 1)
 		e.assume(cond)
 		return true
 	case f1:
-		e.decisions = append(e.decisions, true)
+		e.decisions = append(e.decisions, 1)
 		e.assume(cond)
 		return true
 	case f0:
-		e.decisions = append(e.decisions, false)
+		e.decisions = append(e.decisions, 0)
 		e.assume(nc)
 		return false
 	}
@@ -242,21 +243,88 @@ func (e *Exec) guard(ok *Term, kind string, msg string) {
 	}
 }
 
-// concretize forks over the possible values of t in [lo,hi].
+func b2i(b bool) int64 {
+	if b {
+		return 1
+	}
+	return 0
+}
+
+// concretize forks over the feasible values of t (all within [lo,hi], lo >= 0). Candidates come
+// from the solver's model, so only feasible values cost queries. Each iteration takes one decision
+// slot: 2v+2 = "t == v chosen", 2v+3 = "t != v assumed, continue".
 func (e *Exec) concretize(t *Term, lo, hi int64) int64 {
 	if t.IsConst() {
 		return t.SVal()
 	}
-	if ub := ubound(t); int64(ub) >= 0 && int64(ub) < hi {
-		hi = int64(ub)
+	if e.initing > 0 {
+		panic(unsupported{"symbolic value concretised during package init"})
 	}
-	for k := lo; k < hi; k++ {
-		if e.branch(e.tc.Eq(t, e.tc.Const(t.W, uint64(k)))) {
-			return k
+	for iter := 0; ; iter++ {
+		if iter > 100000 {
+			panic(unwindFail{"concretize: too many values"})
 		}
+		if e.pos < len(e.prefix) {
+			d := e.prefix[e.pos]
+			e.pos++
+			e.decisions = append(e.decisions, d)
+			v := (d - 2) / 2
+			vt := e.tc.Const(t.W, uint64(v))
+			if (d-2)%2 == 0 {
+				e.assume(e.tc.Eq(t, vt))
+				return v
+			}
+			e.assume(e.tc.BNot(e.tc.Eq(t, vt)))
+			continue
+		}
+		e.pos++
+		// candidate from a model of the current path condition
+		if e.model == nil {
+			if a := e.solver.Check(e.pc, nil); a == Sat {
+				e.model = e.solver.Model(e.tc)
+			} else {
+				if a == Unknown {
+					e.inconcl = true
+				}
+				panic(pathEnd{"infeasible"})
+			}
+		}
+		var v int64
+		func() {
+			defer func() {
+				if r := recover(); r != nil {
+					panic(unsupported{"concretize: cannot evaluate term under the model"})
+				}
+			}()
+			v = sext64(Eval(t, e.model, map[*Term]uint64{}), t.W)
+		}()
+		if v < lo || v > hi {
+			// ask for a value inside the range; outside values are the caller's concern (guards precede)
+			in := e.tc.BAnd(e.tc.Sle(e.tc.Const(t.W, uint64(lo)), t), e.tc.Sle(t, e.tc.Const(t.W, uint64(hi))))
+			if a := e.solver.Check(e.pc, in); a == Sat {
+				e.model = e.solver.Model(e.tc)
+				v = sext64(Eval(t, e.model, map[*Term]uint64{}), t.W)
+			} else {
+				panic(unsupported{fmt.Sprintf("concretize: value outside [%d,%d] at %s", lo, hi, e.lastSite)})
+			}
+		}
+		vt := e.tc.Const(t.W, uint64(v))
+		eq := e.tc.Eq(t, vt)
+		ne := e.tc.BNot(eq)
+		a0 := e.solver.Check(e.pc, ne)
+		if a0 == Unknown {
+			e.inconcl = true
+		}
+		if a0 != Unsat {
+			alt := make([]int64, len(e.decisions)+1)
+			copy(alt, e.decisions)
+			alt[len(e.decisions)] = 2*v + 3
+			e.scheduled = append(e.scheduled, alt)
+		}
+		e.decisions = append(e.decisions, 2*v+2)
+		e.assume(eq)
+		return v
 	}
-	e.assume(e.tc.Eq(t, e.tc.Const(t.W, uint64(hi))))
-	return hi
 }
 
 // ---------------------------------------------------------------------------------------------
@@ -668,6 +736,10 @@ func (e *Exec) initCall(fr *frame, in *ssa.Call) (res Value) {
 				res = Poison{"panic during init: " + v.msg}
 			case unwindFail:
 				res = Poison{"unwind during init"}
+			case engineBug:
+				res = Poison{"engine limitation during init: " + v.msg}
+			case runtime.Error:
+				res = Poison{"engine limitation during init: " + v.Error()}
 			default:
 				panic(r)
 			}
